@@ -101,6 +101,7 @@ type fileCtx struct {
 	methods map[string]map[string]*ast.FuncDecl // receiver base type name -> method name -> decl
 	structs map[string]*ast.StructType          // file-local struct types
 	imports map[string]string                   // local package name -> import path
+	funcs   map[string]*ast.FuncDecl            // top-level functions (no receiver) by name
 }
 
 func loadFile(filename string) (*fileCtx, error) { return loadFileIn(filename, "") }
@@ -131,7 +132,7 @@ func loadFileIn(filename, repo string) (*fileCtx, error) {
 	fc := &fileCtx{fset: fset, file: f, info: info,
 		methods: map[string]map[string]*ast.FuncDecl{},
 		structs: map[string]*ast.StructType{},
-		imports: map[string]string{}}
+		imports: map[string]string{}, funcs: map[string]*ast.FuncDecl{}}
 	for _, im := range f.Imports {
 		p := strings.Trim(im.Path.Value, "\"`")
 		name := path.Base(p)
@@ -151,6 +152,9 @@ func loadFileIn(filename, repo string) (*fileCtx, error) {
 				}
 			}
 		case *ast.FuncDecl:
+			if d.Recv == nil {
+				fc.funcs[d.Name.Name] = d
+			}
 			if d.Recv != nil && len(d.Recv.List) == 1 {
 				base, _ := baseTypeName(d.Recv.List[0].Type)
 				if base != "" {
@@ -749,6 +753,17 @@ func (a *an) call(c *ast.CallExpr) val {
 		if _, ok := a.objOf(f).(*types.Builtin); ok {
 			return a.builtin(f.Name, c)
 		}
+		if a.callLocalFunc(f, c) {
+			return val{}
+		}
+	case *ast.IndexExpr: // explicitly instantiated generic function: f[T](...)
+		if id, ok := unparen(f.X).(*ast.Ident); ok && a.callLocalFunc(id, c) {
+			return val{}
+		}
+	case *ast.IndexListExpr:
+		if id, ok := unparen(f.X).(*ast.Ident); ok && a.callLocalFunc(id, c) {
+			return val{}
+		}
 	case *ast.SelectorExpr:
 		if pkg, ok := a.pkgOf(f.X); ok {
 			if pkg == "container/heap" {
@@ -892,6 +907,58 @@ func (a *an) builtin(name string, c *ast.CallExpr) val {
 	return val{}
 }
 
+// callLocalFunc: a top-level function of this file is called with the receiver (path "") as one of its arguments, in the
+// position of a parameter of type *Target: its body is analysed in place with that parameter bound to the receiver, like
+// a method (helpers such as collect(s, pick), or a method delegating to the function form of another one).
+func (a *an) callLocalFunc(id *ast.Ident, c *ast.CallExpr) bool {
+	fd := a.fc.funcs[id.Name]
+	if fd == nil {
+		return false
+	}
+	if _, isFunc := a.objOf(id).(*types.Func); !isFunc {
+		return false
+	}
+	ri := -1
+	for i, arg := range c.Args {
+		if p, ok := a.pathOf(arg); ok && p == "" {
+			if ri >= 0 {
+				a.fail(c.Pos(), "the receiver is passed twice to %s", id.Name)
+			}
+			ri = i
+		}
+	}
+	if ri < 0 {
+		return false
+	}
+	var rid *ast.Ident
+	k := 0
+	for _, prm := range fd.Type.Params.List {
+		names := prm.Names
+		if len(names) == 0 {
+			names = []*ast.Ident{nil}
+		}
+		for _, n := range names {
+			if k == ri {
+				base, ptr := baseTypeName(prm.Type)
+				if base != a.t.typeName || !ptr {
+					a.fail(c.Pos(), "function %s does not take the receiver as a pointer to %s", id.Name, a.t.typeName)
+				}
+				rid = n
+			} else if mentionsType(prm.Type, a.t.typeName) {
+				a.fail(c.Pos(), "function %s takes a second value of the target type", id.Name)
+			}
+			k++
+		}
+	}
+	for i, arg := range c.Args {
+		if i != ri {
+			a.use(arg)
+		}
+	}
+	a.spliceBody(fd, rid, "", c.Pos())
+	return true
+}
+
 // splice analyses the body of a file-local method with its receiver bound to path p.
 func (a *an) splice(fd *ast.FuncDecl, p string, pos token.Pos) {
 	if a.depth >= maxDepth {
@@ -912,6 +979,24 @@ func (a *an) splice(fd *ast.FuncDecl, p string, pos token.Pos) {
 			a.fail(pos, "method %s takes a parameter of the target type", fd.Name.Name)
 		}
 	}
+	var rid *ast.Ident
+	if len(recv.Names) == 1 {
+		rid = recv.Names[0]
+	}
+	a.spliceBody(fd, rid, p, pos)
+}
+
+// spliceBody: the body of fd in place, rid (receiver or parameter) bound to path p
+func (a *an) spliceBody(fd *ast.FuncDecl, rid *ast.Ident, p string, pos token.Pos) {
+	if a.depth >= maxDepth {
+		a.fail(pos, "call depth limit %d exceeded", maxDepth)
+	}
+	if a.active[fd] {
+		a.fail(pos, "recursive call cycle through %s", fd.Name.Name)
+	}
+	if fd.Body == nil {
+		a.fail(pos, "function %s has no body", fd.Name.Name)
+	}
 	saveFr, saveLoops, saveBreaks, saveLabels := a.fr, a.loops, a.breaks, a.labels
 	a.fr = &frame{fd: fd}
 	a.loops, a.breaks, a.labels = nil, nil, map[string]lockState{}
@@ -920,8 +1005,8 @@ func (a *an) splice(fd *ast.FuncDecl, p string, pos token.Pos) {
 		a.reached[fd] = true
 	}
 	a.depth++
-	if len(recv.Names) == 1 && recv.Names[0].Name != "_" {
-		a.bind(recv.Names[0], p)
+	if rid != nil && rid.Name != "_" {
+		a.bind(rid, p)
 	}
 	a.block(fd.Body.List)
 	a.endFrame(fd.Body.Rbrace)
